@@ -7,6 +7,7 @@ import SV.TxCache.GreedySpec
 import SV.TxCache.HeapModel
 import SV.TxCache.ReachableProofs
 import SV.GenProofs.TxComparator
+import SV.TxCache.ChunkedMap
 namespace SV.Props.C03
 open SV SV.TxCache
 
@@ -85,5 +86,36 @@ theorem source_comparator_reads (_ : Unit) :
     break this theorem) -/
 theorem source_price_per_unit_is_floor_saturated (t : Tx) (hg : t.gasLimit ≠ 0) :
     Gen.pricePerUnit (fee := t.fee) (gasLimit := t.gasLimit) = GenProofs.sat64 (t.ppu Variant.current) := GenProofs.pricePerUnit_eq t hg
+
+/-! ### "not on chunk count": the mempool's chunked concurrent map (txcache/maps/concurrentMap.go, transcribed in
+    SV/TxCache/ChunkedMap.lean: fnv32 chunk choice, per-chunk Go maps enumerated in ANY order) is invisible -/
+open ChunkedMap ChunkedMap.CMap in
+/-- the same history of map operations on `n` and on `n'` chunks returns the same flags/values/counts, ends with the same
+    lookups, and its two enumerations are permutations of one another (whatever order Go iterates each chunk in) -/
+theorem chunk_count_is_invisible_to_the_map {α : Type} (n n' : Nat) (ops : List (Op α))
+    (σ σ' : Nat → List (Bytes × α) → List (Bytes × α)) (hσ : IterOrder σ) (hσ' : IterOrder σ') :
+    (run n ops).2 = (run n' ops).2 ∧
+    (∀ k, (run n ops).1.get k = (run n' ops).1.get k) ∧
+    (∀ k, (run n ops).1.has k = (run n' ops).1.has k) ∧
+    (run n ops).1.count = (run n' ops).1.count ∧
+    ((run n ops).1.enumWith σ).Perm ((run n' ops).1.enumWith σ') ∧
+    ((run n ops).1.keysWith σ).Perm ((run n' ops).1.keysWith σ') ∧
+    ((run n ops).1.keysWith σ).Nodup ∧
+    ((run n ops).1.keys).Perm ((run n' ops).1.keys) := chunks_invisible n n' ops σ σ' hσ hσ'
+open ChunkedMap ChunkedMap.CMap in
+/-- hence the selection computed from the senders' lists enumerated through the chunked map is the same for every
+    chunk count and every per-chunk iteration order -/
+theorem selection_independent_of_chunk_count (v : Variant) (s : Session) (q : SelParams) (n n' : Nat) (ops : List (Op (List Tx)))
+    (σ σ' : Nat → List (Bytes × List Tx) → List (Bytes × List Tx)) (hσ : IterOrder σ) (hσ' : IterOrder σ')
+    (hn : ((bunchesWith σ (run n ops).1).flatten.map (·.hash)).Nodup) :
+    selectFromBunches v s q (bunchesWith σ (run n ops).1) = selectFromBunches v s q (bunchesWith σ' (run n' ops).1) :=
+  selection_chunks_invisible v s q n n' ops σ σ' hσ hσ' hn
+open ChunkedMap ChunkedMap.CMap in
+/-- … and it is the selection of the one-association-list representation the hand-written model uses -/
+theorem chunked_selection_is_the_models (v : Variant) (s : Session) (q : SelParams) (n : Nat) (ops : List (Op (List Tx)))
+    (σ : Nat → List (Bytes × List Tx) → List (Bytes × List Tx)) (hσ : IterOrder σ)
+    (hn : (((runA ops).1.map (·.2)).flatten.map (·.hash)).Nodup) :
+    selectFromBunches v s q (bunchesWith σ (run n ops).1) = selectFromBunches v s q ((runA ops).1.map (·.2)) :=
+  selection_refines_alist v s q n ops σ hσ hn
 
 end SV.Props.C03
